@@ -367,8 +367,10 @@ def default_profile():
         revcomp_single_only=False,
         p_big=0.01,
         p_huge=0.004,
+        p_long_read=0.006,
         p_interleaved_redirect=0.3,
         p_duplicate_adapter=0.03,
+        p_same_name=0.0,  # (C15 only) demultiplexing: two different adapters that share a name (one file)
         p_adapter_file=0.12,  # (only when adapters are named) give one group of adapters as file:adapters.fasta
         p_unknown_name=0.0,  # an adapter literally named 'unknown' (legal with --discard-untrimmed/--untrimmed-output)
         p_comments_two_files=1.0,  # (was 0 while this was known finding KF-C06-3)
@@ -673,6 +675,16 @@ def gen_case(rng, profile=None):
     if paired and rng.random() < 0.3:
         r2max = rng.choice([8, 15, 120])  # very different R1/R2 lengths: chunk limits differ
     records = gen_records(rng, n, paired, fastq, ad1, ad2, P["maxlen"], r2max, P["upper_only"], times, revcomp)
+    if records and not big and rng.random() < P["p_long_read"]:
+        # one or two very long reads (long-read technologies): lengths beyond 16-bit limits
+        for _ in range(rng.randint(1, 2)):
+            r_ = rng.choice(records)
+            for si, qi in ((3, 4), (5, 6)) if paired else ((3, 4),):
+                if rng.random() < 0.7:
+                    L = rng.randint(66000, 140000)
+                    r_[si] = rand_seq(rng, L) + r_[si]
+                    if r_[qi] is not None:
+                        r_[qi] = gen_qual(rng, L) + r_[qi]
     inp = gen_input(rng, paired, fastq, P["in_containers"], p_interleaved_fasta=P["p_interleaved_fasta"],
                     p_comments_two_files=P["p_comments_two_files"])
     if inp["layout"] == "interleaved" or interleaved_out:
@@ -692,13 +704,22 @@ def gen_case(rng, profile=None):
                 outs = [g for g in outs if g[0] != flag]
 
     names1 = [a["name"] for a in ad1 + decoys]
+    if demux == "normal" and len(names1) >= 2 and not aux_files and rng.random() < P["p_same_name"]:
+        # two barcodes of one sample: two adapters (different sequences) under the same name
+        k_, j_ = rng.sample(range(len(names1)), 2)
+        old = names1[k_]
+        if old is not None and names1[j_] is not None and old != names1[j_]:
+            for g in opts:
+                if g[0] in ("-a", "-g", "-b") and g[1].startswith(old + "="):
+                    g[1] = names1[j_] + "=" + g[1][len(old) + 1 :]
+            names1[k_] = names1[j_]
     if demux == "normal" and names1 and rng.random() < P["p_unknown_name"] and (
         untrimmed_mode == "discard_untrimmed" or (untrimmed_mode == "untrimmed_output" and not paired)
     ):
         # an adapter may legally be called 'unknown' when the default unknown file is not in use
         k = rng.randrange(len(names1))
         old = names1[k]
-        names1[k] = "unknown"
+        names1 = ["unknown" if x == old else x for x in names1]
         for g in opts:
             if g[0] in ("-a", "-g", "-b") and g[1].startswith(old + "="):
                 g[1] = "unknown=" + g[1][len(old) + 1 :]
